@@ -4,13 +4,15 @@
    (view, observed output) pairs collected over both tenalg backends, tuple / wrapper-object inputs and
    multi-step view sequences. *)
 From Coq Require Import List Arith ZArith QArith Qabs Bool.
-From TLV Require Import Base.Shape Base.PyList Base.Tensor Base.Ops Model.Base Model.Factorized Corr.Common.
+From TLV Require Import Base.Shape Base.PyList Base.Tensor Base.Ops Model.Base Model.Factorized Model.Factorized2 Corr.Common.
 Import ListNotations.
 
 Inductive decomp :=
 | DCp (w : option (tensor Z)) (fs : list (tensor Z)) (mask : option (tensor Z))
 | DTucker (core : tensor Z) (fs : list (tensor Z)) (skip : option nat) (tr : bool)
-| DTuckerModes (core : tensor Z) (fs : list (tensor Z)) (ms : list nat)   (* tucker_to_tensor((core, fs), modes=ms), pairwise distinct modes *)
+| DTuckerModes (core : tensor Z) (fs : list (tensor Z)) (ms : list nat)   (* tucker_to_tensor((core, fs), modes=ms), any modes (repeated ones included) *)
+| DCpNum (x : Z) (mask : option (tensor Z))   (* a Python number handed to the cp_tensor functions (0-order tensor) *)
+| DTtNum (x : Z)                             (* ... to the tt_tensor functions *)
 | DTt (cores : list (tensor Z))
 | DTr (cores : list (tensor Z))
 | DTtm (cores : list (tensor Z))
@@ -52,7 +54,16 @@ Definition run (d : decomp) (v : view) : out :=
   | DTucker c fs skip tr, VUnfolded m => rt (tucker_to_unfolded Zops c fs m skip tr)
   | DTucker c fs skip tr, VVec => rt (tucker_to_vec Zops c fs skip tr)
   | DTucker c fs _ _, VNorm => rnorm (tucker_to_tensor Zops c fs None false)
-  | DTuckerModes c fs ms, VTensor | DTuckerModes c fs ms, VEin VTensor => rt (tucker_to_tensor_modes Zops c fs ms)
+  | DTuckerModes c fs ms, VTensor | DTuckerModes c fs ms, VEin VTensor => rt (tucker_to_tensor_modes_sorted Zops c fs ms)
+  | DCpNum x _, VValidate => match validate_cp_in (CpNum x) with Ok (s, r) => OSR s [r] | Err => OErr end
+  | DCpNum x mask, VTensor => rt (cp_to_tensor_in Zops (CpNum x) mask)
+  | DCpNum x _, VVec => rt (cp_to_vec_in Zops (CpNum x))
+  | DCpNum x _, VUnfolded m => rt (cp_to_unfolded_in Zops (CpNum x) m)
+  | DCpNum x _, VNorm => match cp_normsq_in Zops (CpNum x) with Ok n => ONorm (inject_Z n) | Err => OErr end
+  | DTtNum x, VValidate => rsr (validate_tt_in (TtNum x))
+  | DTtNum x, VTensor => rt (tt_to_tensor_in Zops (TtNum x))
+  | DTtNum x, VVec => rt (tt_to_vec_in Zops (TtNum x))
+  | DTtNum x, VUnfolded m => rt (tt_to_unfolded_in Zops (TtNum x) m)
   | DTt cs, VNorm => rnorm (tt_to_tensor Zops cs)
   | DTr cs, VNorm => rnorm (tr_to_tensor Zops cs)
   | DTtm cs, VNorm => rnorm (ttm_to_tensor Zops cs)
@@ -143,6 +154,8 @@ Definition obj_new (d : decomp) : res obj :=
   | DP2 w fs ps => rbind (p2_new Zops w fs ps) (fun o => Ok (OP2 o))
   | DP2Q _ _ _ => Err
   | DTuckerModes _ _ _ => Err
+  | DCpNum _ _ => Err
+  | DTtNum _ => Err
   end.
 
 (* the call arguments (mask, skip_factor, transpose_factors) are those of the decomposition the history started from *)
